@@ -227,23 +227,13 @@ def pubAdd (p q : PubPoly P) : Out (PubPoly P) :=
   else if p.commits.length ≠ q.commits.length then .err .coeffs
   else .ok ⟨p.g, p.base, List.zipWith (· + ·) p.commits q.commits⟩
 
-/-- `PubPoly.Equal` as repaired (`fix:` commit, length check added – before the repair a
-proper prefix compared equal and a shorter argument indexed out of range, finding F3). -/
+/-- `PubPoly.Equal` (with the length check of the `fix:` commit af0959e; before it a proper prefix
+compared equal and a shorter argument indexed out of range – finding F3, corpus/C09). The base is
+not compared. -/
 def pubEqual (p q : PubPoly P) : Bool :=
   if p.g ≠ q.g then false
   else if p.commits.length ≠ q.commits.length then false
   else allEq p.commits q.commits
-
-/-- `PubPoly.Equal` as it was at the pinned commit: no length check, `q.commits[i]` for
-`i < len(p.commits)`. Kept for the recorded witness of finding F3. -/
-def pubEqualPinned (p q : PubPoly P) : Out Bool :=
-  if p.g ≠ q.g then .ok false
-  else
-    let rec go : List P → List P → Bool → Out Bool
-      | [], _, b => .ok b
-      | _ :: _, [], _ => .panic .index
-      | a :: as, c :: cs, b => go as cs (b && decide (a = c))
-    go p.commits q.commits true
 
 /-- `PubPoly.Check(s)` for a share with a non-nil value -/
 def check (S : Type) [IntCast S] [SMul S P] (p : PubPoly P) (i : Int) (v : S) : Bool :=
